@@ -264,6 +264,10 @@ RULE = ("merge_generators over 1-3 sources with <=3 items each and an optional f
         "simultaneous completions and all iteration orders of the done set; debounced_sorted_prefix over 2-5 items "
         "released at explorer-chosen points relative to the debounce / max-window timers (including the same loop "
         "iteration as the window closing, both orders), also records with equal keys that cannot be compared themselves, and two or three streams in one process, one after the other or overlapping; non-trivial = at least one deviation from the default schedule")
+from vmc.tables import _ROUND7 as _R7  # noqa: E402
+
+RULE += _R7["C29"]
+
 
 
 def run(tier: str, seed: int) -> Any:
